@@ -363,3 +363,8 @@ func (b *Byz) dealEvals() {
 		b.send(shmsg.NewPolyEval(b.eon, receivers, encrypted), "polyeval")
 	}
 }
+
+// VoteResult sends this keyper's vote on the outcome of a key generation.
+func (b *Byz) VoteResult(eon uint64, success bool) {
+	b.send(shmsg.NewDKGResult(eon, success), fmt.Sprintf("dkgresult(%d,%t)", eon, success))
+}
